@@ -1,6 +1,7 @@
 //! simcheck - deterministic simulation of squitterator with fault injection.
 mod carried;
 mod driver;
+mod ehs;
 mod exec;
 mod gen;
 mod kf;
